@@ -26,6 +26,8 @@ IMPORTS = [
     ("C04", None, "the keys that assemble the line, and the Enter that submits it, are decoded from the byte stream"),
     ("C05", None, "`the line as it stood after every insertion, deletion and cursor move` is the editor's content"),
     ("C06", ("C06.sync",), "the line the user sees is the editor's line (title: the *visible* line)"),
+    ("C10", ("C10.recall-entry", "C10.whole-entry"), "`history recall ... that led to it`: a recall replaces the line by one stored entry, whole and unmodified"),
+    ("C11", ("C11.line-content",), "`completion that led to it`: after Tab the line is the request plus the bytes the completion added (and at most one blank), nothing else"),
     ("C07", None, "the handler receives the tokens of that line"),
     ("C08", ("C08.classify",), "the arguments the handler reads are the classified tokens"),
 ]
